@@ -932,3 +932,90 @@ def append_loops_repo(repo) -> int:
         if isinstance(f, FuncInfo) and f.outer is None:
             n += append_loops_function(f.node)
     return n
+
+
+# --------------------------------------------------------------------------- C20
+def counting_loops_function(fn) -> int:
+    """C20: ``c = 0`` directly followed by ``for t in S: if T: c += 1`` (the whole loop)  ->
+    ``c = sum(T for t in S)`` when T is a comparison (bool-valued), else ``c = sum(1 for t in S if T)``.
+    ``S`` bound to a tuple / list display by the closest preceding statement of the block is read as that display."""
+    done = 0
+    allnames: dict[str, int] = {}
+    for n in ast.walk(fn):
+        if isinstance(n, ast.Name):
+            allnames[n.id] = allnames.get(n.id, 0) + 1
+
+    def booly(e) -> bool:
+        if isinstance(e, ast.Compare):
+            return True
+        if isinstance(e, ast.UnaryOp) and isinstance(e.op, ast.Not):
+            return True
+        if isinstance(e, ast.BoolOp):
+            return all(booly(v) for v in e.values)
+        return isinstance(e, ast.Call) and isinstance(e.func, ast.Name) and e.func.id in ("isinstance", "bool", "hasattr", "callable")
+
+    def rec(stmts):
+        nonlocal done
+        for st in stmts:
+            if isinstance(st, (ast.FunctionDef, ast.AsyncFunctionDef, ast.ClassDef)):
+                continue
+            for fld, lst in list(_blocks(st)):
+                lst[:] = rec(lst)
+        out = []
+        i = 0
+        while i < len(stmts):
+            st = stmts[i]
+            nxt = stmts[i + 1] if i + 1 < len(stmts) else None
+            if isinstance(st, (ast.Assign, ast.AnnAssign)) and isinstance(getattr(st, "value", None), ast.Constant) and st.value.value == 0 and not isinstance(st.value.value, bool) and isinstance(nxt, ast.For) and not nxt.orelse and len(nxt.body) == 1 and isinstance(nxt.body[0], ast.If) and not nxt.body[0].orelse and len(nxt.body[0].body) == 1:
+                tg = st.targets if isinstance(st, ast.Assign) else [st.target]
+                inc = nxt.body[0].body[0]
+                if len(tg) == 1 and isinstance(tg[0], ast.Name) and isinstance(inc, ast.AugAssign) and isinstance(inc.op, ast.Add) and isinstance(inc.target, ast.Name) and inc.target.id == tg[0].id and isinstance(inc.value, ast.Constant) and inc.value.value == 1:
+                    c = tg[0].id
+                    test = nxt.body[0].test
+                    loopvars = {n.id for n in ast.walk(nxt.target) if isinstance(n, ast.Name)}
+                    in_loop = sum(1 for n in ast.walk(nxt) if isinstance(n, ast.Name) and n.id == c)
+                    ok = in_loop == 1 and not any(isinstance(n, (ast.Yield, ast.YieldFrom, ast.Await, ast.NamedExpr)) for n in ast.walk(nxt))
+                    # loop variables must not be read after the loop (a comprehension does not leak them); a later
+                    # re-binding by another loop is fine
+                    later = [n for s_ in stmts[i + 2:] for n in ast.walk(s_) if isinstance(n, ast.Name) and n.id in loopvars]
+                    for v in loopvars:
+                        first = next((n for n in later if n.id == v), None)
+                        if first is not None and not isinstance(first.ctx, ast.Store):
+                            ok = False
+                    if ok:
+                        it = nxt.iter
+                        if isinstance(it, ast.Name):
+                            for prev in reversed(out):
+                                if isinstance(prev, (ast.Assign, ast.AnnAssign)) and getattr(prev, "value", None) is not None:
+                                    ptg = prev.targets if isinstance(prev, ast.Assign) else [prev.target]
+                                    if len(ptg) == 1 and isinstance(ptg[0], ast.Name) and ptg[0].id == it.id:
+                                        if isinstance(prev.value, (ast.Tuple, ast.List)) and all(_chain(e) for e in prev.value.elts):
+                                            it = clone(prev.value)
+                                        break
+                                if any(isinstance(n, ast.Name) and n.id == it.id and isinstance(n.ctx, ast.Store) for n in ast.walk(prev)) or not isinstance(prev, (ast.Assign, ast.AnnAssign, ast.Expr, ast.Pass)):
+                                    break
+                        if booly(test):
+                            gen = ast.GeneratorExp(elt=test, generators=[ast.comprehension(target=nxt.target, iter=it, ifs=[], is_async=0)])
+                        else:
+                            gen = ast.GeneratorExp(elt=ast.Constant(value=1), generators=[ast.comprehension(target=nxt.target, iter=it, ifs=[test], is_async=0)])
+                        st.value = ast.copy_location(ast.Call(func=ast.Name(id="sum", ctx=ast.Load()), args=[gen], keywords=[]), nxt)
+                        out.append(st)
+                        done += 1
+                        i += 2
+                        continue
+            out.append(st)
+            i += 1
+        return out
+
+    fn.body = rec(fn.body)
+    if done:
+        _refresh(fn)
+    return done
+
+
+def counting_loops_repo(repo) -> int:
+    n = 0
+    for f in list(repo.funcs.values()):
+        if isinstance(f, FuncInfo) and f.outer is None:
+            n += counting_loops_function(f.node)
+    return n
